@@ -24,6 +24,8 @@ these theorems without any test input having to hit it.
   around `=`, and **any** value (quoted, back-quoted or bare) followed by anything, is reported: in
   the tag context itself, on any element in element content, and after breaking out of a single-,
   double- or back-quoted value;
+* `listed_attribute_detected_in_tag` / `_in_element` — every **listed** attribute of the always-dangerous class
+  (`datasrc`, `dataformatas`, `xmlns`, … class 1) or of the style class (`style`, `filter`), in any letter case, with any value;
 * `script_url_detected_*` — a URL-bearing attribute with a quoted value that, after leading control
   bytes, spells a script-capable scheme through any mix of encodings (C19's `Enc`) is reported.
 
@@ -286,5 +288,34 @@ example : isBlackAttr [104, 114, 101, 102] = 2 ∧ isBlackAttr [111, 110, 101, 1
     isBlackAttr [115, 116, 121, 108, 101] = 3 := by decide +kernel
 
 example : isBlackTag [115, 0, 99, 114, 105, 112, 116] = true := by decide +kernel
+
+/-- a listed attribute is classified with its listed class, in any letter case (from `black_attrs_all_spellings`) -/
+theorem listed_attr_class (a : Bytes × Nat) (ha : a ∈ Gen.blacks) (name : Bytes) (hcase : CaseEq name a.1) :
+    isBlackAttr name = a.2 := by
+  have h1 := List.all_eq_true.mp black_attrs_all_spellings a ha
+  simp only [spellings, List.all_cons, Bool.and_eq_true, beq_iff_eq] at h1
+  rw [isBlackAttr_caseEq name _ hcase, h1.1.1]
+
+/-- **C04, listed attributes of the "always dangerous" class** (`datasrc`, `dataformatas`, `xmlns`, …: class 1) and of the
+**style class** (`style`, `filter`: class 3), in any letter case, with any value: in the tag context -/
+theorem listed_attribute_detected_in_tag (a : Bytes × Nat) (ha : a ∈ Gen.blacks) (hcl : a.2 = 1 ∨ a.2 = 3)
+    (name ws ws2 rest : Bytes) (c : UInt8) (hcase : CaseEq name a.1) (hws : ws.all isSkipWhite = true)
+    (hws2 : ws2.all isSkipWhite = true) (hc : isSkipWhite c = false) (hn : AttrAt name) :
+    isXSS (ws ++ name ++ 61 :: (ws2 ++ c :: rest)) = .ok true :=
+  isXSS_of_ctx _ 1 (by omega) (black_attr_in_tag_context ws name ws2 rest c hws hws2 hc hn
+    (by rw [listed_attr_class a ha name hcase]; exact hcl))
+
+/-- … on any element in element content -/
+theorem listed_attribute_detected_in_element (a : Bytes × Nat) (ha : a ∈ Gen.blacks) (hcl : a.2 = 1 ∨ a.2 = 3)
+    (p tag name ws ws2 rest : Bytes) (w c : UInt8) (hcase : CaseEq name a.1) (hp : (60 : UInt8) ∉ p)
+    (hn : NameAt tag (w :: (ws ++ name ++ 61 :: (ws2 ++ c :: rest)))) (hw : isH5White w = true)
+    (hws : ws.all isSkipWhite = true) (hws2 : ws2.all isSkipWhite = true) (hc : isSkipWhite c = false) (hat : AttrAt name) :
+    isXSS (p ++ 60 :: (tag ++ w :: (ws ++ name ++ 61 :: (ws2 ++ c :: rest)))) = .ok true :=
+  isXSS_of_ctx0 _ (black_attr_in_element p tag ws name ws2 rest w c hp hn hw hws hws2 hc hat
+    (by rw [listed_attr_class a ha name hcase]; exact hcl))
+
+/-- non-vacuity: `DATASRC` is listed with class 1, `STYLE` with class 3 -/
+example : (([68,65,84,65,83,82,67], 1) : Bytes × Nat) ∈ Gen.blacks ∧ (([83,84,89,76,69], 3) : Bytes × Nat) ∈ Gen.blacks := by
+  decide +kernel
 
 end LibInj.Properties.C04
